@@ -409,9 +409,9 @@ Theorem fusion_attrs_only_refuted_ :
   exists (ks : list kern) (en : env) (s s1 s2 : sched),
     lib_contract ref_lib /\
     Forall (fun k => attr_ok [] en (attr_of k)) ks /\
-    gen_sched builtin_table 0 ks = Some s /\
-    apply_x builtin_table 0 s XConst = Some s1 /\
-    apply_x builtin_table 0 s1 (XFuseOuter 0) = Some s2 /\
+    gen_sched ref_table 0 ks = Some s /\
+    apply_x ref_table 0 s XConst = Some s1 /\
+    apply_x ref_table 0 s1 (XFuseOuter 0) = Some s2 /\
     at_pt 1 1 (exec ref_lib en s1) = [2%nat] /\ at_pt 1 1 (exec ref_lib en s2) = [].
 Proof.
   exists [mkK 1 "go_offset_ne" "go_ct" "go_internal_pts" 0; mkK 2 "go_offset_any" "go_ct" "go_internal_pts" 1],
